@@ -220,6 +220,44 @@ func genValue(t *rapid.T) vk.Str {
 	return vk.Str(v)
 }
 
+// genEnvPair draws list element i: well-formed with probability goodOf20/20,
+// else one of the malformed kinds (no '=', undecodable escape, empty key,
+// empty element). A well-formed pair takes one of wellKnown as its key with
+// probability 1/5, every other key is a fresh token.
+func genEnvPair(t *rapid.T, i int, uniq func(string, int) string, goodOf20 int, wellKnown []string) EnvPair {
+	p := EnvPair{Kind: "good"}
+	if rapid.IntRange(0, 19).Draw(t, "kind") >= goodOf20 {
+		p.Kind = rapid.SampledFrom([]string{"noeq", "noeq", "badesc", "badesc", "emptykey", "empty", "empty"}).Draw(t, "malformed")
+	}
+	p.Pad = rapid.SliceOfN(rapid.SampledFrom(ows), 4, 4).Draw(t, "pad")
+	p.Lower = rapid.Bool().Draw(t, "lower")
+	switch p.Kind {
+	case "good", "badesc", "noeq":
+		if p.Kind == "good" && rapid.IntRange(0, 4).Draw(t, "svckey") == 0 {
+			p.K = vk.Str(uniq(rapid.SampledFrom(wellKnown).Draw(t, "wellknown"), i))
+		} else {
+			p.K = vk.Str(uniq(genRunes(t, "key", envKeyRunes, 1, 4), i))
+		}
+	}
+	switch p.Kind {
+	case "good", "emptykey":
+		p.V = genValue(t)
+		p.Enc = rapid.IntRange(0, 2).Draw(t, "enc")
+		if p.Enc == 2 {
+			p.Mask = rapid.SliceOfN(rapid.Bool(), len(p.V), len(p.V)).Draw(t, "mask")
+		}
+	case "badesc":
+		pre, _ := refEncode(string(vk.GenText(2, false).Draw(t, "bad.pre")), nil, false)
+		if rapid.Bool().Draw(t, "bad.atend") {
+			p.V = vk.Str(pre + rapid.SampledFrom(badFragsEnd).Draw(t, "bad.frag"))
+		} else {
+			post, _ := refEncode(string(vk.GenText(2, false).Draw(t, "bad.post")), nil, false)
+			p.V = vk.Str(pre + rapid.SampledFrom(badFragsMid).Draw(t, "bad.frag") + post)
+		}
+	}
+	return p
+}
+
 func genEnv(t *rapid.T) EnvCase {
 	c := EnvCase{}
 	c.AttrsSet = rapid.IntRange(0, 9).Draw(t, "attrs_set") != 0
@@ -234,46 +272,7 @@ func genEnv(t *rapid.T) EnvCase {
 	if c.AttrsSet {
 		n := vk.GenLen(8, 1, 2, 3).Draw(t, "npairs")
 		for i := 0; i < n; i++ {
-			p := EnvPair{}
-			switch k := rapid.IntRange(0, 19).Draw(t, "kind"); {
-			case k < 13:
-				p.Kind = "good"
-			case k < 15:
-				p.Kind = "noeq"
-			case k < 17:
-				p.Kind = "badesc"
-			case k < 18:
-				p.Kind = "emptykey"
-			default:
-				p.Kind = "empty"
-			}
-			p.Pad = rapid.SliceOfN(rapid.SampledFrom(ows), 4, 4).Draw(t, "pad")
-			p.Lower = rapid.Bool().Draw(t, "lower")
-			switch p.Kind {
-			case "good", "badesc", "noeq":
-				if p.Kind == "good" && rapid.IntRange(0, 4).Draw(t, "svckey") == 0 {
-					p.K = vk.Str(uniq(svcKey, i))
-				} else {
-					p.K = vk.Str(uniq(genRunes(t, "key", envKeyRunes, 1, 4), i))
-				}
-			}
-			switch p.Kind {
-			case "good", "emptykey":
-				p.V = genValue(t)
-				p.Enc = rapid.IntRange(0, 2).Draw(t, "enc")
-				if p.Enc == 2 {
-					p.Mask = rapid.SliceOfN(rapid.Bool(), len(p.V), len(p.V)).Draw(t, "mask")
-				}
-			case "badesc":
-				pre, _ := refEncode(string(vk.GenText(2, false).Draw(t, "bad.pre")), nil, false)
-				if rapid.Bool().Draw(t, "bad.atend") {
-					p.V = vk.Str(pre + rapid.SampledFrom(badFragsEnd).Draw(t, "bad.frag"))
-				} else {
-					post, _ := refEncode(string(vk.GenText(2, false).Draw(t, "bad.post")), nil, false)
-					p.V = vk.Str(pre + rapid.SampledFrom(badFragsMid).Draw(t, "bad.frag") + post)
-				}
-			}
-			c.Pairs = append(c.Pairs, p)
+			c.Pairs = append(c.Pairs, genEnvPair(t, i, uniq, 13, []string{svcKey}))
 		}
 		c.Outer = rapid.SliceOfN(rapid.SampledFrom(ows), 2, 2).Draw(t, "outer")
 	}
